@@ -26,6 +26,11 @@ fn main() {
                 }
             }
         }
+        for d in [2usize, 3] {
+            if doc.part == format!("net-raw-slow-device:model:depth={}", d) {
+                std::process::exit(vlab::replay::replay_dfs(&doc, &move || c16::run_slow(TKind::Model, d)));
+            }
+        }
         for d in [4usize, 6] {
             if doc.part == format!("net-large-buffers:model:depth={}", d) {
                 std::process::exit(vlab::replay::replay_dfs(&doc, &move || c16::run_large(TKind::Model, d)));
@@ -57,6 +62,14 @@ fn main() {
         let mut cfg = DfsConfig::new(&part, 1);
         cfg.wall_cap = Duration::from_secs(if args.tier == Tier::Quick { 20 } else { 900 });
         let st = dfs::explore(&cfg, &move || c16::run_large(TKind::Model, d));
+        c.add_dfs(&part, &st);
+    }
+    {
+        let d = if args.tier == Tier::Quick { 2 } else { 3 };
+        let part = format!("net-raw-slow-device:model:depth={}", d);
+        let mut cfg = DfsConfig::new(&part, 0);
+        cfg.wall_cap = Duration::from_secs(if args.tier == Tier::Quick { 20 } else { 900 });
+        let st = dfs::explore(&cfg, &move || c16::run_slow(TKind::Model, d));
         c.add_dfs(&part, &st);
     }
     for (t, raw, d) in parts(args.tier) {
